@@ -62,21 +62,33 @@ OPS = {
     "bulkwalk1x2-p": (("bulkwalk", [A, P], 1), [A, P], "bulk"),
     "bulkwalk2x2-p": (("bulkwalk", [A, P], 2), [A, P], "bulk"),
     "bulktable2-p": (("bulktable", (1, 3, 2), 2), [(1, 3, 2)], "bulk"),
+    # the agent may also answer any request with an error response (choice per
+    # distinct request, memoised): "whatever the agent answers"
+    "walk-err": (("walk", A), [A], "getnext"),
+    "multiwalk-err": (("multiwalk", [A, B]), [A, B], "getnext"),
+    "multiwalk-warn-err": (("multiwalk", [A, B], "warn"), [A, B], "getnext"),
+    "table-err": (("table", A), [A], "getnext"),
+    "bulkwalk2-err": (("bulkwalk", [A], 2), [A], "bulk"),
+    "bulkwalk1x2-err": (("bulkwalk", [A, B], 1), [A, B], "bulk"),
 }
+# (error-status, error-index, bindings echoed?) - index "beyond" = one past the
+# request's bindings
+ERR_MENU = [None, (2, 0, True), (2, 1, True), (2, "beyond", True), (2, 0, False), (5, 0, True), (1, 0, False), (2, 2, True)]
 
 # (operation, universe name, deviation bound or None)
 ALL_OPS = ["walk", "walk-warn", "table", "multiwalk", "multiwalk-warn", "bulkwalk1", "bulkwalk2", "bulkwalk3", "bulkwalk1x2", "bulkwalk2x2", "bulktable2"]
 CUT_OPS = ["bulkwalk1-cut", "bulkwalk2-cut", "bulkwalk2x2-cut"]
 P_OPS = ["walk-p", "multiwalk-p", "bulkwalk1x2-p", "bulkwalk2x2-p", "bulktable2-p"]
+ERR_OPS = ["walk-err", "multiwalk-err", "multiwalk-warn-err", "table-err", "bulkwalk2-err", "bulkwalk1x2-err"]
 PLAN = {
     "quick": [(o, "W7", None) for o in ALL_OPS if o not in ("bulkwalk2x2",)] + [("bulkwalk2x2", "W5", None), ("bulkwalk2x2", "W7", 3)] + [(o, "W5", 3) for o in CUT_OPS]
-    + [(o, "W7P", 2) for o in P_OPS],
+    + [(o, "W7P", 2) for o in P_OPS] + [(o, "W5", 2) for o in ERR_OPS],
     "thorough": [(o, "W7", None) for o in ALL_OPS]
     + [(o, "W9", None) for o in ("walk", "walk-warn", "multiwalk", "multiwalk-warn", "bulkwalk1", "bulkwalk2", "bulkwalk1x2", "table")]
     + [(o, "W9", 4) for o in ("bulkwalk3", "bulkwalk2x2", "bulktable2", "bulkwalk4")]
     + [("bulkwalk4", "W7", None)]
     + [(o, "W7", 4) for o in CUT_OPS] + [("bulkwalk1-cut", "W5", None), ("bulkwalk2-cut", "W5", None)]
-    + [(o, "W7P", 4) for o in P_OPS],
+    + [(o, "W7P", 4) for o in P_OPS] + [(o, "W7", 3) for o in ERR_OPS],
 }
 W9 = sorted(W7 + [(1, 3, 2, 4), (1, 3, 3, 2)])
 UNIVERSES = {"W5": W5, "W7": W7, "W9": W9, "W7P": W7P}
@@ -100,7 +112,7 @@ def make_run(opname, uname, client):
     op, roots, family = OPS[opname]
     W = UNIVERSES[uname]
     horizon = 3 * len(W) + 6
-    lenient = opname.endswith("-warn")
+    lenient = "-warn" in opname
 
     def run(ctx):
         memo = {}
@@ -136,6 +148,21 @@ def make_run(opname, uname, client):
                 return full if k == 0 else ([] if k == 1 else full[:1])
 
             ag.bulk_cut = cut
+        if opname.endswith("-err"):
+            err_memo = {}
+
+            def answer_with_error(agent, pdu, resp):
+                key = (tuple(o for o, _ in pdu["varbinds"]), pdu["f2"] if pdu["tag"] == snmp.PDU_GETBULK else None)
+                if key not in err_memo:
+                    err_memo[key] = ctx.choose(len(ERR_MENU), "err%r" % (key,))
+                if not err_memo[key]:
+                    return resp
+                es, ei, echo = ERR_MENU[err_memo[key]]
+                if ei == "beyond":
+                    ei = len(pdu["varbinds"]) + 1
+                return dict(resp, es=es, ei=ei, varbinds=list(pdu["varbinds"]) if echo else [])
+
+            ag.response_hook = answer_with_error
         sender = client.sender
         sender.handle = ag.handle
         sender.calls = []
@@ -166,7 +193,8 @@ def make_run(opname, uname, client):
             bad("request-horizon-reached", horizon=horizon)
         # an answer with fewer bindings than columns asked for (down to none)
         # reveals nothing for some column; the client may ask once more for it
-        short = sum(1 for e in reqs if len(e.get("response", {}).get("varbinds", ())) < len(e["msg"]["pdu"]["varbinds"]))
+        # (an error response reveals nothing either)
+        short = sum(1 for e in reqs if e.get("response", {}).get("es") or len(e.get("response", {}).get("varbinds", ())) < len(e["msg"]["pdu"]["varbinds"]))
         facts["short_answers"] = short
         if nreq > len(revealed) + len(roots) + 1 + short:
             bad("more-requests-than-revealed-instances", revealed=len(revealed))
@@ -174,7 +202,7 @@ def make_run(opname, uname, client):
         seen = set()
         rerequest = None
         for e in reqs:
-            nresp = len(e.get("response", {}).get("varbinds", ()))
+            nresp = 0 if e.get("response", {}).get("es") else len(e.get("response", {}).get("varbinds", ()))
             for i, (o, _) in enumerate(e["msg"]["pdu"]["varbinds"]):
                 if i >= nresp:
                     continue
@@ -215,6 +243,8 @@ def first_stall(reqs, family):
     advancing beyond the OID requested at its position, else None"""
     for idx, e in enumerate(reqs):
         req = [o for o, _ in e["msg"]["pdu"]["varbinds"]]
+        if e.get("response", {}).get("es"):
+            continue  # an error response answers nothing (its bindings echo the request)
         resp = e.get("response", {}).get("varbinds", [])
         r = len(req)
         for i, (o, v) in enumerate(resp):
@@ -287,7 +317,7 @@ def meta(tier):
         "exhaustive": True,
         "bounds": {"plan": [list(p) for p in PLAN[tier]], "max_executions_per_shard": MAX_EXEC[tier], "horizon": "3*|W|+6 requests"},
         "assumptions": [
-            "agent answers every request with exactly one binding per requested OID and repetition (truncated answers belong to C02)",
+            "agent answers every request with exactly one binding per requested OID and repetition (truncated answers belong to C02); in the -cut operations with fewer bindings down to none, in the -err operations with an error response (noSuchName / genErr / tooBig, error-index 0, 1, 2 or beyond the bindings, bindings echoed or absent), decided per distinct request",
             "bindings after the first endOfMibView of a response are not judged (the client discards them unread)",
         ],
     }
